@@ -273,20 +273,8 @@ def rename_verdict(model, r, new):
                 slen = int(r.pos[1])
             except ValueError:
                 return "unspec"
-            for x in model.recs:
-                cols = []
-                if x.rt == "E":
-                    cols = [c for i, c in ((1, (3, 4)), (2, (5, 6))) if x.pos[i][:-1] == new]
-                elif x.rt == "F" and x.pos[0] == new:
-                    cols = [(2, 3)]
-                for cc in cols:
-                    for c in cc:
-                        p = x.pos[c]
-                        if not p.rstrip("$").isdigit():
-                            return "unspec"
-                        if (p.endswith("$") and int(p[:-1]) != slen) or int(p.rstrip("$")) > slen or \
-                                (not p.endswith("$") and int(p) == slen):
-                            return "unspec"
+            if not all(T.positions_fit(x, new, slen) for x in model.recs if x.rt in ("E", "F")):
+                return "unspec"
         if any(m == new for m, role in T.mentions(r)):
             return "fail"           # the record would become its own item
         if r.rt == "S" or (roles == {"item"} and r.rt in ("E", "O")):
@@ -422,8 +410,26 @@ def fresh_obs(ctx, model, vlevel):
     return O.obs(r.value), r
 
 
+def _sort_tags(text):
+    f = text.split("\t")
+    i = len(f)
+    while i > 1 and S.TAGRE.fullmatch(f[i - 1]):
+        i -= 1
+    return "\t".join(f[:i] + sorted(f[i:]))
+
+
 def strip_volatile(o):
-    """obs without what legitimately differs between a mutated graph and a fresh parse."""
+    """obs without what legitimately differs between a mutated graph and a fresh parse: the order
+    of the tags of a line (the properties speak of the tag *set*; a group line assembled from
+    several U/O lines lists the tags in an order which depends on the history)."""
+    if isinstance(o, str):
+        return _sort_tags(o) if "\t" in o else o
+    if isinstance(o, dict):
+        return {strip_volatile(k): strip_volatile(v) for k, v in o.items()}
+    if isinstance(o, list):
+        return [strip_volatile(x) for x in o]
+    if isinstance(o, tuple):
+        return tuple(strip_volatile(x) for x in o)
     return o
 
 
@@ -524,8 +530,8 @@ def run_history(case, ctx, compare_every=True):
         if model.unspecified_state():
             ctx.count("unspecified_states")
             continue
-        want = S.canon_doc(model.text_lines(), version)
-        got = S.canon_doc(real_text(g), version)
+        want = _once_headers(S.canon_doc(model.text_lines(), version))
+        got = _once_headers(S.canon_doc(real_text(g), version))
         ctx.count("text_comparisons")
         if want != got:
             missing = [x for x in want if x not in got]
@@ -540,7 +546,11 @@ def run_history(case, ctx, compare_every=True):
                 ctx.violation("model-text-refused/%s" % fr.cls(), "text after step %d refused: %s"
                               % (si, str(fr.exc)[:300]), prop="C05")
                 return shape
-            go = O.obs(g)
+            go = strip_volatile(O.obs(g))
+            fo = strip_volatile(fo)
+            if isinstance(go.get("text"), list):
+                go["text"].sort()
+                fo["text"].sort()
             if go != fo:
                 d = O.diff_obs(fo, go)
                 ctx.violation("graph-differs-from-fresh-parse/%s/%s/%s" % (st["op"], st.get("rt") or "", _what_changed(d)),
@@ -610,6 +620,16 @@ def _lookup_oracle(ctx, g, model, st, si, version):
         elif freed in listed and not any(m == freed for x in model.recs for m, role in T.mentions(x)):
             ctx.violation("freed-identifier-listed/%s" % st["op"],
                           "after step %d %r: %r is still listed in names" % (si, st, freed), prop="C09")
+
+
+def _once_headers(canon):
+    """a single-definition header tag (VN, TS) given again with the same value is one definition."""
+    out = []
+    for x in canon:
+        if x[0] == "H" and x in out and any(t[0] in ("VN", "TS") for t in x[2]):
+            continue
+        out.append(x)
+    return out
 
 
 def _mx(missing, extra):
